@@ -142,7 +142,7 @@ const LOOP_EXITS: &[&str] = &[
 const EXPR_EXITS: &[&str] = &["exhaust", "fault", "mutate", "cancel", "depth", "natural"];
 
 fn muts(kind: &str) -> &'static [&'static str] {
-    match kind.trim_end_matches("_empty") {
+    match kind.trim_end_matches("_empty").trim_end_matches("_big") {
         "list" => LIST_MUTS,
         "dict" => DICT_MUTS,
         _ => SET_MUTS,
@@ -243,6 +243,26 @@ fn catalogue() -> &'static Vec<Spec> {
                 }
             }
         }
+        // Containers above the size at which dicts and sets get a hash index (and lists have been
+        // re-allocated a few times).
+        for kind in ["list_big", "dict_big", "set_big"] {
+            let nm = muts(kind).len();
+            for m in 0..nm {
+                for (construct, is_def) in LOOP_CONSTRUCTS {
+                    for exit in ["exhaust", "break", "return", "mutate", "fault"] {
+                        if exit == "return" && !is_def {
+                            continue;
+                        }
+                        v.push(Spec { kind, construct, mutation: m, alias: ALIASES[m % 4], exit, at: m % 3 });
+                    }
+                }
+                for construct in EXPR_CONSTRUCTS {
+                    for exit in ["exhaust", "mutate"] {
+                        v.push(Spec { kind, construct, mutation: m, alias: ALIASES[(m + 1) % 4], exit, at: m % 3 });
+                    }
+                }
+            }
+        }
         for (i, (kind, _)) in AUG_MUTS.iter().enumerate() {
             for (construct, _) in LOOP_CONSTRUCTS {
                 for exit in ["exhaust", "mutate", "fault", "break"] {
@@ -263,6 +283,9 @@ fn catalogue() -> &'static Vec<Spec> {
 
 fn init(kind: &str) -> &'static str {
     match kind {
+        "list_big" => "[1, 2, 3] + [i + 100 for i in range(20)]",
+        "dict_big" => "{\"a\": 1, \"b\": 2, \"c\": 3}\nC.update({(\"k%d\" % i): i for i in range(20)})",
+        "set_big" => "set([1, 2, 3] + [i + 100 for i in range(20)])",
         "list_empty" => "[7, 8]\nC.clear()",
         "dict_empty" => "{}",
         "set_empty" => "set()",
@@ -273,7 +296,7 @@ fn init(kind: &str) -> &'static str {
 }
 
 fn elem(kind: &str, at: usize) -> &'static str {
-    match kind.trim_end_matches("_empty") {
+    match kind.trim_end_matches("_empty").trim_end_matches("_big") {
         "dict" => ["\"a\"", "\"b\"", "\"c\""][at % 3],
         _ => ["1", "2", "3"][at % 3],
     }
@@ -281,7 +304,7 @@ fn elem(kind: &str, at: usize) -> &'static str {
 
 /// A second container that makes eager consumers fail part-way.
 fn init2(kind: &str) -> &'static str {
-    match kind.trim_end_matches("_empty") {
+    match kind.trim_end_matches("_empty").trim_end_matches("_big") {
         "list" => "[(1, 2), \"ab\", 3, None]",
         "dict" => "{(1, 2): 1, \"ab\": 2, 3: 3}",
         _ => "set([(1, 2), \"ab\", 3])",
